@@ -258,6 +258,15 @@ func (w *World) Reopen() {
 	w.App = newApp(w.DB, w.Home, w.Opts.Upgrades)
 	w.InBlock = false
 	w.Height = w.App.LastBlockHeight()
+	w.LastHash = w.App.LastCommitID().Hash
+}
+
+// Open constructs an application on an existing database (no InitChain, no block opened).
+func Open(opts Options) *World {
+	Init()
+	w := &World{DB: opts.DB, Home: homeFor(opts), Opts: opts, ValSet: valSet()}
+	w.Reopen()
+	return w
 }
 
 // Export commits the open block and returns the exported genesis.
